@@ -35,13 +35,26 @@ structure Stats (C D : Nat) (α : Type) where
   sumPx : Fin C → Fin D → α
   sumPxx : Fin C → Fin D → α
   ll : α
+  t : Nat
 
 def eStep (p : Params (C+1) D α) (xs : List (Fin D → α)) : Stats (C+1) D α :=
   let r := fun (x : Fin D → α) (c : Fin (C+1)) => Transc.exp (lwl p x c - logLik p x)
   { n := fun c => lsum (xs.map fun x => r x c)
     sumPx := fun c d => lsum (xs.map fun x => r x c * x d)
     sumPxx := fun c d => lsum (xs.map fun x => r x c * x d * x d)
-    ll := lsum (xs.map (logLik p)) }
+    ll := lsum (xs.map (logLik p))
+    t := xs.length }
+
+/-- GMMStats.__add__ / __iadd__ (equal declared shapes) -/
+def Stats.add (a b : Stats C D α) : Stats C D α :=
+  { n := fun c => a.n c + b.n c
+    sumPx := fun c d => a.sumPx c d + b.sumPx c d
+    sumPxx := fun c d => a.sumPxx c d + b.sumPxx c d
+    ll := a.ll + b.ll
+    t := a.t + b.t }
+/-- a freshly constructed GMMStats -/
+def Stats.zero : Stats C D α :=
+  { n := fun _ => 0, sumPx := fun _ _ => 0, sumPxx := fun _ _ => 0, ll := 0, t := 0 }
 end
 end BobEM
 
@@ -67,6 +80,12 @@ def mlRawVar (cfg : MlCfg C D α) (p : Params C D α) (st : Stats C D α) (c : F
   let mlm := st.sumPx c d / tn c
   st.sumPxx c d / tn c - mlm * mlm + (mlm - mlMeans cfg p st c d) * (mlm - mlMeans cfg p st c d)
 
+/-- the variance estimate of the pinned commit (`sum_pxx/n − means²` with the machine's *current*
+means): correct only when the means were just updated — defect D4, kept for the refutation -/
+def mlRawVarOld (cfg : MlCfg C D α) (p : Params C D α) (st : Stats C D α) (c : Fin C) (d : Fin D) : α :=
+  let tn : Fin C → α := fun c => max (st.n c) cfg.countThr
+  st.sumPxx c d / tn c - mlMeans cfg p st c d * mlMeans cfg p st c d
+
 /-- gmm.py ml_gmm_m_step (with the frozen-means repair), `t` = number of samples -/
 def mlMStep (cfg : MlCfg C D α) (p : Params C D α) (st : Stats C D α) (t : α) : Params C D α :=
   let tn : Fin C → α := fun c => max (st.n c) cfg.countThr
@@ -74,5 +93,67 @@ def mlMStep (cfg : MlCfg C D α) (p : Params C D α) (st : Stats C D α) (t : α
     means := mlMeans cfg p st
     variances := if cfg.updVars then fun c d => max (cfg.varFloor c d) (mlRawVar cfg p st c d)
                  else p.variances }
+end
+end BobEM
+
+namespace BobEM
+section
+variable {α : Type} [Add α] [Mul α] [Sub α] [Div α] [Neg α] [OfNat α 0] [OfNat α 1] [OfNat α 2]
+  [Max α] [LT α] [DecidableLT α] [Transc α] {C D : Nat}
+
+structure MapCfg (C D : Nat) (α : Type) where
+  updMeans : Bool
+  updVars : Bool
+  updWeights : Bool
+  /-- `map_relevance_factor is not None` -/
+  reynolds : Bool
+  relevance : α
+  alphaFixed : α
+  countThr : α
+  varFloor : Fin C → Fin D → α
+
+/-- the data-dependent adaptation coefficient -/
+def mapAlpha (cfg : MapCfg C D α) (st : Stats C D α) (c : Fin C) : α :=
+  if cfg.reynolds then st.n c / (st.n c + cfg.relevance) else cfg.alphaFixed
+
+/-- un-normalised adapted weights (Reynolds eq. 11) -/
+def mapRawWeight (cfg : MapCfg C D α) (ubm : Params C D α) (st : Stats C D α) (t : α) (c : Fin C) : α :=
+  mapAlpha cfg st c * (st.n c / t) + (1 - mapAlpha cfg st c) * ubm.weights c
+
+def mapWeights (cfg : MapCfg C D α) (ubm p : Params C D α) (st : Stats C D α) (t : α) : Fin C → α :=
+  if cfg.updWeights then fun c => mapRawWeight cfg ubm st t c / sumFin C (mapRawWeight cfg ubm st t)
+  else p.weights
+
+/-- adapted means (Reynolds eq. 12) with the no-evidence guard -/
+def mapMeans (cfg : MapCfg C D α) (ubm p : Params C D α) (st : Stats C D α) : Fin C → Fin D → α :=
+  if cfg.updMeans then fun c d =>
+    let nthr := if st.n c < cfg.countThr then cfg.countThr else st.n c
+    if st.n c < cfg.countThr then ubm.means c d
+    else mapAlpha cfg st c * (st.sumPx c d / nthr) + (1 - mapAlpha cfg st c) * ubm.means c d
+  else p.means
+
+/-- adapted variance before the floor.  `sq` is the function applied to the prior mean inside the
+prior's second moment: `fun m => m * m` is Reynolds eq. 13 (**Spec**), `fun m => m` is what the
+pinned code computes (**Code**, defect D3). -/
+def mapRawVarG (sq : α → α) (cfg : MapCfg C D α) (ubm p : Params C D α) (st : Stats C D α)
+    (c : Fin C) (d : Fin D) : α :=
+  let m' := mapMeans cfg ubm p st c d
+  let prior2 := ubm.variances c d + sq (ubm.means c d)
+  if st.n c < cfg.countThr then prior2 - m' * m'
+  else mapAlpha cfg st c * st.sumPxx c d / st.n c + (1 - mapAlpha cfg st c) * prior2 - m' * m'
+
+def mapMStepG (sq : α → α) (cfg : MapCfg C D α) (ubm p : Params C D α) (st : Stats C D α) (t : α) :
+    Params C D α :=
+  { weights := mapWeights cfg ubm p st t
+    means := mapMeans cfg ubm p st
+    variances := if cfg.updVars then fun c d => max (cfg.varFloor c d) (mapRawVarG sq cfg ubm p st c d)
+                 else p.variances }
+
+/-- gmm.py map_gmm_m_step as the property demands it (Reynolds et al. eq. 11–13) -/
+def mapMStepSpec (cfg : MapCfg C D α) (ubm p : Params C D α) (st : Stats C D α) (t : α) : Params C D α :=
+  mapMStepG (fun m => m * m) cfg ubm p st t
+/-- gmm.py map_gmm_m_step as the pinned commit computes it (`ubm.variances + ubm.means`) -/
+def mapMStepCode (cfg : MapCfg C D α) (ubm p : Params C D α) (st : Stats C D α) (t : α) : Params C D α :=
+  mapMStepG (fun m => m) cfg ubm p st t
 end
 end BobEM
